@@ -156,7 +156,19 @@ pub fn stream_parse(out: &mut impl Write, seed: u64, budget: usize) {
                 let p = off + *rng.pick(&regions);
                 if p < s.len() { s[p] = *rng.pick(&interesting); }
             }
-            _ => { for c in s.iter_mut() { *c = c.to_ascii_lowercase(); } }
+            _ => {
+                if rng.chance(1, 2) {
+                    for c in s.iter_mut() { *c = c.to_ascii_lowercase(); }
+                } else {
+                    // several corrupted positions, often adjacent
+                    let k = rng.range(2, 4) as usize;
+                    let p0 = rng.below(s.len() as u64) as usize;
+                    for j in 0..k {
+                        let p = if rng.chance(2, 3) { (p0 + j).min(s.len() - 1) } else { rng.below(s.len() as u64) as usize };
+                        s[p] = *rng.pick(&interesting);
+                    }
+                }
+            }
         }
         emit_parse(out, vi, mode, &s);
     }
@@ -177,6 +189,23 @@ pub fn stream_parse_sweep(out: &mut impl Write, seed: u64, step: usize) {
                     let mut s = base.clone();
                     s[p] = b;
                     emit_parse(out, vi, mode, &s);
+                }
+                // two positions at once: the aligned digit pair containing p, over a grid of
+                // interesting byte values (both invalid, one invalid, case mixes)
+                let grid: [u8; 12] = [b'0', b'9', b'A', b'f', b'g', b'G', b'@', b'/', b':', 0x00, 0x80, 0xff];
+                let off = if with_prefix { 2 } else { 0 };
+                if p >= off {
+                    let q = off + ((p - off) & !1);
+                    if q + 1 < base.len() {
+                        for &c1 in &grid {
+                            for &c2 in &grid {
+                                let mut s = base.clone();
+                                s[q] = c1;
+                                s[q + 1] = c2;
+                                emit_parse(out, vi, mode, &s);
+                            }
+                        }
+                    }
                 }
                 p += step;
             }
